@@ -14,3 +14,7 @@ func Point(site string) {
 		f(site)
 	}
 }
+
+// MapSeed is set per run by the simulator: verifOrder (root package) rotates the sorted keys of
+// the library's maps by it, so that the iteration order is a function of the run.
+var MapSeed uint64
